@@ -12,7 +12,7 @@ PROPS_FILE = "I2N/Props/C16.lean"
 ANCHORS = {"avocado_i2n/cartgraph/node.py": [
     "PrefixTreeNode", "PrefixTree", "EdgeRegister", "TestNode.bridge_with_node", "TestNode.bridged_form",
     "TestNode.setless_form"],
-    "avocado_i2n/cartgraph/graph.py": ["TestGraph.get_nodes_by_name", "TestGraph.__contains__"]}
+    "avocado_i2n/cartgraph/graph.py": ["TestGraph.get_nodes_by_name"]}
 TRUSTED = ["modelled, not verified: result order of PrefixTree.get (compared as sorted lists); "
            "names repeating their first variant are excluded (the real insert does not terminate on them)"]
 
